@@ -59,6 +59,9 @@ class WorkerManager:
         for r_queue in self.result_queues_collection:
             try:
                 result_uuid = r_queue.get(block=False)
+                if isinstance(result_uuid, tuple):
+                    # a drop acknowledgement that arrived after wait_for_drop_completion gave up; not a step result
+                    continue
                 self.result_uuids_collection.add(UUID(result_uuid))
             except queue.Empty:
                 continue
